@@ -210,3 +210,30 @@ WITNESSES += [
     dict(id="c18-init-antisym-not-stored", prop="C18", file="expr_container.py", expect="R18e",
          old="        self._antisym_tensors: set = (set() if antisym_tensors is None\n                                      else set(antisym_tensors))\n", new="        self._antisym_tensors: set = set()\n"),
 ]
+
+WITNESSES += [
+    # the term splitter as a generator, the index parts through `yield from`
+    dict(id="c18-ok-generators", prop="C18", file=F, expect=None, edits=[
+        ("    def split_terms(expr_string: str) -> list[str]:\n        stack: list[str] = []\n        terms: list[str] = []\n", "    def split_terms(expr_string: str):\n        stack: list[str] = []\n"),
+        ("                terms.append(expr_string[term_start_idx:i])\n                term_start_idx = i\n        terms.append(expr_string[term_start_idx:])  # append last term\n        return terms",
+         "                yield expr_string[term_start_idx:i]\n                term_start_idx = i\n        yield expr_string[term_start_idx:]  # last term"),
+        ("    terms = split_terms(expr_string)\n", "    terms = list(split_terms(expr_string))\n"),
+        ("        idx = []\n        for sub_part in indices.split(\"}\"):", "        idx = []\n        for sub_part in (yield_parts(indices)):"),
+        ("    def import_indices(indices: str):", "    def yield_parts(indices: str):\n        yield from indices.split(\"}\")\n\n    def import_indices(indices: str):"),
+    ]),
+    # operators instead of the Pow/Mul constructors, the product accumulated in a loop starting from S.One
+    dict(id="c18-ok-operators-for-constructors", prop="C18", file=F, expect=None, edits=[
+        ("        return Pow(base, exponent)\n\n    def import_obj", "        return base ** exponent\n\n    def import_obj"),
+        ("            return Pow(obj.sympy, exponent)", "            return obj.sympy ** exponent"),
+        ("        return Mul(*(import_obj(o) for o in objects))", "        result = S.One\n        for o in objects:\n            result = result * import_obj(o)\n        return result"),
+    ]),
+    # the spin words and their codes in a module level table
+    dict(id="c18-ok-spin-code-table", prop="C18", file=F, expect=None, edits=[
+        ("def import_from_sympy_latex(expr_string: str,", "_SPIN_WORDS = {\"alpha\": \"a\", \"beta\": \"b\"}\n\n\ndef import_from_sympy_latex(expr_string: str,"),
+        ('                if spin not in ["alpha", "beta"]:', '                if spin not in _SPIN_WORDS:'),
+        ("                idx.extend(get_symbols(names[-1], spin[0]))", "                idx.extend(get_symbols(names[-1], _SPIN_WORDS[spin]))"),
+    ]),
+    # `x or ()` instead of the conditional expression, partition instead of split
+    dict(id="c18-ok-or-default", prop="C18", file="expr_container.py", expect=None,
+         old="        self._sym_tensors: set = (set() if sym_tensors is None\n                                  else set(sym_tensors))", new="        self._sym_tensors: set = set(sym_tensors or ())"),
+]
